@@ -12,5 +12,9 @@ func regConsts(pkg string, names ...string) {
 }
 
 // regConstAs registers a constant under a different Coq name (to avoid clashes between packages).
-func regConstAs(coq, pkg, name string) { constItems = append(constItems, item{coq: coq, pkg: pkg, name: name}) }
-func regTable(coq, pkg, name string)   { tableItems = append(tableItems, item{coq: coq, pkg: pkg, name: name}) }
+func regConstAs(coq, pkg, name string) {
+	constItems = append(constItems, item{coq: coq, pkg: pkg, name: name})
+}
+func regTable(coq, pkg, name string) {
+	tableItems = append(tableItems, item{coq: coq, pkg: pkg, name: name})
+}
